@@ -74,7 +74,9 @@ class World:
         return 9900 + p.index
 
 
-def build_op(spec, world):
+def build_op(spec, world, own_op=None):
+    """own_op: when a dict is given, the parameter containers (Heisenberg J / h as lists or arrays, field-operator coefficient
+    array) are the caller's and are collected there"""
     import qib
     from qib.operator import (PauliOperator, PauliString, WeightedPauliString, FieldOperator,
                               FieldOperatorTerm, IFODesc, IFOType, HeisenbergHamiltonian)
@@ -86,24 +88,34 @@ def build_op(spec, world):
         return op
     if spec["op"] == "heis":
         f = world.opfield(spec["fid"], n, False)
-        return HeisenbergHamiltonian(f, [float(v) for v in spec["J"]], [float(v) for v in spec["h"]])
+        J, hh = [float(v) for v in spec["J"]], [float(v) for v in spec["h"]]
+        if own_op is not None:
+            if spec.get("as") == "array":
+                J, hh = np.array(J), np.array(hh)
+            own_op.update(J=J, h=hh)
+        return HeisenbergHamiltonian(f, J, hh)
     if spec["op"] == "fermi":
         f = world.opfield(spec["fid"], n, True)
         co = np.array([[complex(a, b) for a, b in row] for row in spec["coeffs"]])
+        if own_op is not None:
+            own_op.update(coeffs=co)
         term = FieldOperatorTerm([IFODesc(f, IFOType.FERMI_CREATE), IFODesc(f, IFOType.FERMI_ANNIHIL)], co)
         return FieldOperator([term])
     raise ValueError(spec["op"])
 
 
-def build(spec, world, own=None):
+def build(spec, world, own=None, form=None, own_op=None):
     """spec (JSON-able) -> gate object through the public API.  own: when a list is given, every numpy array handed to a
-    constructor (rotation vector, preparation vector, user-defined matrix) is a caller-owned array and is collected there"""
+    constructor (rotation vector, preparation vector, user-defined matrix) is a caller-owned array and is collected there;
+    form(array, kind) (optional) chooses dtype / layout / buffer of these arrays, and `own` then receives (array, kind) pairs"""
     import qib
     from qib.operator import BlockEncodingMethod
 
-    def keep(a):
+    def keep(a, kind=None):
+        if form is not None:
+            a = form(a, kind)
         if own is not None:
-            own.append(a)
+            own.append((a, kind) if form is not None else a)
         return a
     k = spec["k"]
     if k == "leaf":
@@ -117,7 +129,7 @@ def build(spec, world, own=None):
         if nm in ("Rx", "Ry", "Rz"):
             return {"Rx": qib.RxGate, "Ry": qib.RyGate, "Rz": qib.RzGate}[nm](P[0], *q)
         if nm == "Rot":
-            return qib.RotationGate(keep(np.array(P, dtype=float)) if own is not None else list(P), *q)
+            return qib.RotationGate(keep(np.array(P, dtype=float), "Rot") if own is not None else list(P), *q)
         if nm in ("Rxx", "Ryy", "Rzz"):
             return {"Rxx": qib.RxxGate, "Ryy": qib.RyyGate, "Rzz": qib.RzzGate}[nm](P[0], *(q if q else [None, None]))
         if nm == "ISwap":
@@ -129,31 +141,31 @@ def build(spec, world, own=None):
     if k == "ctrl":
         if spec.get("default_state"):      # ctrl_state omitted: documented default = active on all ones
             assert all(b == 1 for b in spec["pat"])
-            g = qib.ControlledGate(build(spec["g"], world, own), len(spec["pat"]))
+            g = qib.ControlledGate(build(spec["g"], world, own, form), len(spec["pat"]))
         else:
-            g = qib.ControlledGate(build(spec["g"], world, own), len(spec["pat"]), list(spec["pat"]))
+            g = qib.ControlledGate(build(spec["g"], world, own, form), len(spec["pat"]), list(spec["pat"]))
         if spec["cq"] is not None:
             g.set_control([world.q(i) for i in spec["cq"]])
         return g
     if k == "mux":
-        g = qib.MultiplexedGate([build(s, world, own) for s in spec["gs"]], spec["nc"])
+        g = qib.MultiplexedGate([build(s, world, own, form) for s in spec["gs"]], spec["nc"])
         if spec["cq"] is not None:
             g.set_control([world.q(i) for i in spec["cq"]])
         return g
     if k == "benc":
-        g = qib.BlockEncodingGate(build_op(spec["h"], world), BlockEncodingMethod[spec["method"]])
+        g = qib.BlockEncodingGate(build_op(spec["h"], world, own_op), BlockEncodingMethod[spec["method"]])
         if spec["aux"] is not None:
             g.set_auxiliary_qubits([world.q(i) for i in spec["aux"]])
         return g
     if k == "tevo":
-        return qib.TimeEvolutionGate(build_op(spec["h"], world), float(spec["t"]))
+        return qib.TimeEvolutionGate(build_op(spec["h"], world, own_op), float(spec["t"]))
     if k == "prep":
-        g = qib.PrepareGate(keep(np.array(spec["vec"], dtype=float)), spec["n"], bool(spec["tr"]))
+        g = qib.PrepareGate(keep(np.array(spec["vec"], dtype=float), "prep"), spec["n"], bool(spec["tr"]))
         if spec["q"] is not None:
             g.on([world.q(i) for i in spec["q"]])
         return g
     if k == "gen":
-        M = keep(np.array([[complex(a, b) for a, b in row] for row in spec["mat"]]))
+        M = keep(np.array([[complex(a, b) for a, b in row] for row in spec["mat"]]), "gen")
         g = qib.GeneralGate(M, spec["n"])
         if spec["q"] is not None:
             g.on([world.q(i) for i in spec["q"]])
@@ -386,6 +398,45 @@ def prepare_grid(thorough):
     out.append({"k": "ctrl", "pat": [1], "cq": [0], "g": e0})
     out.append({"k": "ctrl", "pat": [0], "cq": [0], "g": ne})
     out.append({"k": "mux", "nc": 1, "cq": [0], "gs": [e0, e3]})
+    return out
+
+
+def composite_flag_specs(thorough):
+    """flags of a composite are DERIVED from its parts: a multiplexer with 0, 1, 2, 3, 4 controls (1, 2, 4, 8, 16 targets) whose
+    targets are all Hermitian except ONE, and that one at EVERY index (a loop over the targets with a wrong bound - 2*nc, nc**2,
+    2**nc - 1, starting at 1 - skips exactly some of these positions); the all-Hermitian multiplexer (a legitimate claim); the
+    same with a composite (controlled S / controlled Z) as target, inside a controlled gate, and for the non-Hermitian target
+    taken from every kind of gate (S, T, rotation, user matrix, preparation); controlled gates with 0, 3, 4 controls (no PRNG)"""
+    herm = ["X", "Z", "H", "Y", "I"]
+    r = 1 / math.sqrt(2)
+    nonherm = [lambda q: _leaf("S", q), lambda q: _leaf("T", q), lambda q: _leaf("Rx", q, [0.7]), lambda q: _leaf("Sdg", q),
+               lambda q: {"k": "gen", "n": 1, "mat": [[[1, 0], [0, 0]], [[0, 0], [0, 1]]], "q": q},
+               lambda q: {"k": "prep", "n": 1, "vec": [0.25, -0.75], "tr": False, "q": q},
+               lambda q: _leaf("Rot", q, [0.3, -0.4, 1.2])]
+    out = []
+    for nc in (0, 1, 2, 3, 4):
+        cq, tq = list(range(nc)), [nc]
+        hs = [_leaf(herm[(j + nc) % len(herm)], tq) for j in range(2 ** nc)]
+        out.append({"k": "mux", "nc": nc, "cq": cq, "gs": hs})
+        for k in range(2 ** nc):
+            gs = list(hs)
+            gs[k] = nonherm[(k + nc) % len(nonherm)](tq)
+            out.append({"k": "mux", "nc": nc, "cq": cq, "gs": gs})
+            if nc in (0, 3) and (thorough or k % 3 == 0):
+                out.append({"k": "ctrl", "pat": [k % 2], "cq": [nc + 1], "g": {"k": "mux", "nc": nc, "cq": cq, "gs": gs}})
+    # two-wire composite targets: controlled-Z (Hermitian) everywhere, controlled-S at one index
+    for nc in (0, 3):
+        cq, c1, tq = list(range(nc)), [nc], [nc + 1]
+        cz = {"k": "ctrl", "pat": [1], "cq": c1, "g": _leaf("Z", tq)}
+        for k in range(2 ** nc):
+            gs = [cz] * (2 ** nc)
+            gs[k] = {"k": "ctrl", "pat": [k % 2], "cq": c1, "g": _leaf("S", tq)}
+            out.append({"k": "mux", "nc": nc, "cq": cq, "gs": gs})
+    # controlled gates: 0, 3, 4 controls, every kind of non-Hermitian target, and a Hermitian one
+    for nc in (0, 3, 4):
+        for j, mk in enumerate(nonherm + [lambda q: _leaf("Y", q)]):
+            pat = [(j >> b) & 1 for b in range(nc)]
+            out.append({"k": "ctrl", "pat": pat, "cq": list(range(1, nc + 1)), "g": mk([0])})
     return out
 
 
@@ -961,6 +1012,15 @@ def run(ctx, pid):
         ASSUME[k] = [0, 0]
     for spec in gen_cases(ctx):
         check_tree(ctx, pid, spec, cases_zi, cases_fi)
+    ctx.rules.append("composite flags: multiplexers with 0-4 controls whose single non-Hermitian target (S, T, Sdg, rotation, user matrix, "
+                     "preparation; controlled-S among controlled-Z) sits at EVERY index, all-Hermitian ones, inside a controlled gate; "
+                     "controlled gates with 0, 3, 4 controls over every kind of target (oracles of the property only)")
+    for spec in composite_flag_specs(ctx.thorough):
+        ctx.count("composite_flag_specs")
+        check_tree(ctx, pid, spec, [], [], only_oracle=True)
+        # C16: only the trees that (rightly) claim to be Hermitian count as non-trivial
+        if pid != "C16" or all(k in ("X", "Z", "H", "Y", "I", "ctrl", "mux") for k in kinds_of(spec)):
+            ctx.nontriv(("composite-flags", repr(spec)[:3000]))
     for k in ASSUME:
         ctx.oblige("assumption:%s-meets-its-modelled-specification" % k, "assumption", ASSUME[k][1] == 0,
                    "%d of %d instances violate it" % (ASSUME[k][1], sum(ASSUME[k])))
@@ -1100,8 +1160,9 @@ def check_history(ctx, pid, inp):
     spec = inp["spec"]
     kind = spec["k"]
     world = World(2)
+    own_op = {}
     try:
-        g = build(spec, world)
+        g = build(spec, world, own_op=own_op)
         h = g.encoded_operator() if kind == "benc" else g.h
     except Exception as e:
         ctx.fail("history:construction-raises:" + kind, inp, "a gate", repr(e)[:200])
@@ -1154,7 +1215,16 @@ def check_history(ctx, pid, inp):
         if inp.get("touch_before", True):
             verify("fresh", before)                       # first as_matrix() of everything (fills any cache)
         for step, m in enumerate(inp["mutations"]):
-            mutate_op(h, spec["h"], m)
+            if "caller" in m:
+                # the caller re-scales ITS OWN containers (the lists / arrays it passed to the operator's constructor) in place:
+                # the operator may follow or not; the gate must describe the operator as it is now
+                for c in own_op.values():
+                    if isinstance(c, list):
+                        c[:] = [x * float(m["caller"]) for x in c]
+                    else:
+                        c *= float(m["caller"])
+            else:
+                mutate_op(h, spec["h"], m)
             after = derived("made-after-%d:" % step)
             verify("after-mutation-%d" % step, before + after)
             before = before + after
@@ -1179,6 +1249,11 @@ def history_inputs(ctx):
                     spec["t"] = round(rng.uniform(-2, 2), 6)
                 out.append({"comp": True, "what": "history", "spec": spec, "touch_before": opk != "fermi",
                             "mutations": [{"scale": 0.5}, {"flip": True}, {"scale": round(rng.uniform(0.2, 0.9), 3)}]})
+                if opk != "pauli":
+                    # the same gate over an operator made from containers the caller keeps and rescales afterwards
+                    spec2 = dict(spec, h=dict(hs, **({"as": "array"} if method in ("Wxi", None) else {})))
+                    out.append({"comp": True, "what": "history", "spec": spec2, "touch_before": method != "R",
+                                "mutations": [{"caller": 0.5}, {"scale": 0.5}, {"caller": -0.75}]})
     return out
 
 
@@ -1347,22 +1422,30 @@ def check_generator_rep(ctx, pid, inp):
         ctx.fail("generator:construction-raises:" + rep["r"], inp, "an operator", repr(e)[:200])
         return None
     ctx.count("generator_rep_" + rep["r"])
-    if maxerr(H, H.conj().T) > 1e-12:
+    # operators given in tiny (or huge) units: every comparison of H itself is RELATIVE to its size
+    hs = float(np.abs(Href).max()) if "ref" in inp else 1.0
+    hs = hs if hs > 0 else 1.0
+    if maxerr(H, H.conj().T) > 1e-12 * hs:
         ctx.count("generator_rep_not_hermitian_skipped")
         return None
-    if maxerr(H, Href) > 1e-11:
+    if maxerr(H, Href) > 1e-11 * hs:
         # the operator class misreports its own matrix: another property's business; C02 ("exp(-itH) for the H denoted") reports it
         ctx.count("generator_rep_matrix_differs_from_definition")
         if pid == "C02":
             ctx.fail("generator:operator-matrix-differs-from-numpy-definition:" + cls, inp, "numpy definition of H", maxerr(H, Href))
         Href = H
+    # "ref" = {"href", "t"}: the same product t H written in units of order 1 (t and H are rescaled by exact powers of two), so
+    # that the eigh-based reference is well conditioned however small the units of H and however long the time
+    Rref = None
+    if "ref" in inp and maxerr(H, Href) <= 1e-11 * hs:
+        Rref = history_reference("tevo", None, href_matrix(inp["ref"]["href"]), float(inp["ref"]["t"]))
     for gs in inp["gates"]:
         kind = gs["k"]
         tag = "%s:%s" % (kind, cls)
         try:
             if kind == "tevo":
                 g = qib.TimeEvolutionGate(h, gs["t"])
-                R = history_reference("tevo", None, Href, float(gs["t"]))
+                R = Rref if Rref is not None else history_reference("tevo", None, Href, float(gs["t"]))
             else:
                 g = qib.BlockEncodingGate(h, BlockEncodingMethod[gs["method"]])
                 R = history_reference("benc", gs["method"], Href, 0.0)
@@ -1396,6 +1479,19 @@ def check_generator_rep(ctx, pid, inp):
                 ctx.fail("generator:%s:matrix-differs-from-definition-over-this-representation" % tag, where,
                          "exp(-i t H) (eigh of the numpy definition of H)" if kind == "tevo" else "block encoding of the numpy definition of H",
                          maxerr(U, W))
+            if pid == "C02" and name == "bare" and "ref" in inp:
+                N = Href.shape[0]
+                if kind == "benc" and maxerr(U[:N, :N], Href) > 1e-8 * hs:
+                    # the encoded block at RELATIVE tolerance (an operator of tiny norm must not be rounded to zero)
+                    ctx.fail("generator:%s:top-left-block-is-not-H-relative-to-its-size" % tag, where, "H (relative 1e-8)", maxerr(U[:N, :N], Href) / hs)
+                if kind == "tevo" and gs.get("near_identity"):
+                    # |t H| tiny: U = 1 - i t H + O(|tH|^2); the off-diagonal part at tolerance relative to |t H|
+                    A = -1j * float(gs["t"]) * Href
+                    off = lambda M: M - np.diag(np.diag(M))
+                    a = float(np.abs(A).max())
+                    if maxerr(off(U), off(A)) > 1e-6 * a + 4 * a * a:
+                        ctx.fail("generator:%s:off-diagonal-part-is-not-minus-i-t-H-relative-to-its-size" % tag, where,
+                                 "-i t H off the diagonal (relative 1e-6)", maxerr(off(U), off(A)) / a)
             if pid == "C03":
                 try:
                     Ui = dense(o.inverse().as_matrix())
@@ -1619,6 +1715,138 @@ def generator_families(ctx):
     return fams
 
 
+# ---------------------------------------------------------------- operators in tiny units, long times
+# exp(-i t H) depends on the product t H only.  A Hamiltonian given in tiny units (couplings 2^-20 ... 2^-60) evolved for a
+# correspondingly long time is an ordinary rotation; so is a nearly diagonal one whose weak couplings (2^-3 ... 2^-10 of the
+# diagonal scale) act for a long time.  Any absolute threshold on the entries of H ("is it diagonal?", "is it zero?") goes wrong
+# here.  sd scales the terms that are diagonal in the computational basis, so the others; both are exact powers of two, so the
+# reference can be computed in units of order one.
+def scaled_family_reps(rng):
+    """list of (name, make(sd, so) -> (href, [rep, ...]))"""
+    from checks import C10
+    fams = []
+
+    def ising(n, pbc, J, hh, g):
+        def make(sd, so):
+            terms = [(place(n, [(i, "Z"), (j, "Z")]), J * sd) for i, j in chain_pairs(n, pbc)]
+            terms += [(place(n, [(i, "Z")]), hh * sd) for i in range(n)] + [(place(n, [(i, "X")]), g * so) for i in range(n)]
+            href = {"kind": "pauli", "n": n, "terms": [[s, [c, 0.0]] for s, c in terms]}
+            base = {"n": n, "pbc": pbc, "J": J * sd, "h": hh * sd, "g": g * so, "conv": "ISING_ZZ"}
+            return href, [dict(base, r="ising"), dict(base, r="ising-pauli"), {"r": "pop", "items": [[{"s": s, "q": 0}, [c, 0.0]] for s, c in terms]}]
+        return make
+
+    def heis(n, pbc, Jv, hv):
+        def make(sd, so):
+            sc = [so, so, sd]
+            terms = []
+            for k, ch in enumerate("XYZ"):
+                terms += [(place(n, [(i, ch), (j, ch)]), Jv[k] * sc[k]) for i, j in chain_pairs(n, pbc)]
+                terms += [(place(n, [(i, ch)]), hv[k] * sc[k]) for i in range(n)]
+            href = {"kind": "pauli", "n": n, "terms": [[s, [c, 0.0]] for s, c in terms]}
+            base = {"n": n, "pbc": pbc, "J": [Jv[k] * sc[k] for k in range(3)], "h": [hv[k] * sc[k] for k in range(3)]}
+            return href, [dict(base, r="heis"), dict(base, r="heis-pauli")]
+        return make
+
+    def hubbard(n, spin, pbc, t, u):
+        def make(sd, so):
+            Ls = 2 * n if spin else n
+            adj = np.zeros((n, n))
+            for i, j in chain_pairs(n, pbc):
+                adj[i, j] = adj[j, i] = 1
+            kin = -t * so * (np.kron(np.eye(2), adj) if spin else adj)
+            pairs = [(i, i + n) for i in range(n)] if spin else chain_pairs(n, pbc)
+            inter = np.zeros((Ls,) * 4)
+            for i, j in pairs:
+                inter[i, i, j, j] = u * sd
+            href = {"kind": "fermi", "fterms": C10.desc_terms(Ls, [([1, 0], kin), ([1, 0, 1, 0], inter)])}
+            base = {"n": n, "pbc": pbc, "spin": spin, "t": t * so, "u": u * sd}
+            return href, [dict(base, r="fh"), dict(base, r="fh-field")]
+        return make
+
+    def quadratic(L, c):
+        def make(sd, so):
+            cs = np.diag(np.diag(c)) * sd + (c - np.diag(np.diag(c))) * so
+            href = {"kind": "fermi", "fterms": C10.desc_terms(L, [([1, 0], cs)])}
+            tk = [[_wsplit(v) for v in row] for row in cs]
+            return href, [{"r": "field", "fterms": C10.desc_terms(L, [([1, 0], cs)])},
+                          {"r": "field", "fterms": C10.desc_terms(L, [([1, 0], np.triu(cs)), ([1, 0], np.tril(cs, -1))]), "how": "sum"},
+                          {"r": "mol", "n": L, "c": 0.0, "tkin": tk, "vint": [0.0] * L ** 4},
+                          {"r": "mol-field", "n": L, "c": 0.0, "tkin": tk, "vint": [0.0] * L ** 4}]
+        return make
+
+    def paulis(terms):
+        def make(sd, so):
+            tt = [(s, c * (sd if set(s) <= set("IZ") else so)) for s, c in terms]
+            n = len(terms[0][0])
+            href = {"kind": "pauli", "n": n, "terms": [[s, [c, 0.0]] for s, c in tt]}
+            reps = [{"r": "pop", "items": [[{"s": s, "q": 0}, [c, 0.0]] for s, c in tt]},
+                    {"r": "pop", "items": [[{"s": s, "q": 1}, _wsplit(c / _QPHASE[1])] for s, c in tt], "via": "add"}]
+            if len(tt) == 1:
+                reps.append({"r": "wps", "p": {"s": tt[0][0], "q": 0}, "w": [tt[0][1], 0.0]})
+            return href, reps
+        return make
+    r3 = lambda: round(rng.uniform(0.3, 1.0) * rng.choice([-1, 1]), 3)
+    fams.append(("hubbard:n=2", hubbard(2, False, False, 1.0, 0.5)))           # the hopping amplitude in tiny units
+    fams.append(("hubbard:n=3:pbc", hubbard(3, False, True, r3(), r3())))
+    fams.append(("hubbard:n=2:spin", hubbard(2, True, False, r3(), r3())))
+    fams.append(("ising:n=2", ising(2, False, r3(), r3(), r3())))
+    fams.append(("ising:n=3:pbc", ising(3, True, r3(), r3(), r3())))
+    fams.append(("heis:n=2", heis(2, False, [r3(), r3(), r3()], [r3(), r3(), r3()])))
+    fams.append(("heis:n=3", heis(3, False, [r3(), 0.0, r3()], [0.0, r3(), r3()])))
+    for L in (2, 3):
+        a = np.array([[complex(r3(), r3()) for _ in range(L)] for _ in range(L)])
+        fams.append(("fermi-quadratic:L=%d" % L, quadratic(L, (a + a.conj().T) / 2)))
+    fams.append(("pauli:X", paulis([("X", 1.0)])))
+    fams.append(("pauli:Z+X", paulis([("Z", r3()), ("X", r3())])))
+    fams.append(("pauli:n=2", paulis([("ZI", r3()), ("ZZ", r3()), ("XY", r3()), ("IX", r3())])))
+    return fams
+
+
+SCALE_EXPS = [-20, -24, -27, -30, -40, -50, -60, 20, 40]
+SCALE_T0 = [math.pi / 2, 0.3, -1.1, 2.5]
+
+
+def scaled_generator_checks(ctx, pid):
+    ctx.rules.append(
+        "operators in tiny units (C01/C02/C03/C16): Hubbard (hopping vs interaction), Ising (transverse vs longitudinal), Heisenberg, "
+        "quadratic fermionic / molecular, Pauli-sum Hamiltonians whose couplings are 2^e, e in {-20,-24,-27,-30,-40,-50,-60, 20, 40}, with the "
+        "terms that are diagonal in the computational basis at the same scale or 2^3 / 2^7 / 2^10 times larger (nearly diagonal), evolved "
+        "for t = t0 2^-e, t0 in {pi/2, 0.3, -1.1, 2.5} (J t of order one), against the eigh-based reference of the same product t H in "
+        "units of order one; the same operators at t = t0 (nearly the identity: off-diagonal part relative to |t H|); block encodings "
+        "(Wx, Wxi, R) of operators of norm 2^e (encoded block relative to its size); bare / controlled / multiplexed / inverse")
+    fams = scaled_family_reps(ctx.rng)
+    n = 0
+    for fi, (name, make) in enumerate(fams):
+        # quick tier: three of the nine scales per family (every scale is seen by four families), one nearly diagonal variant each
+        exps = SCALE_EXPS if ctx.thorough else [SCALE_EXPS[(fi + j) % len(SCALE_EXPS)] for j in (0, 3, 6)]
+        for ei, e in enumerate(sorted(set(exps))):
+            for k in ((0, 3, 7, 10) if ctx.thorough else ((0, (3, 7, 10)[(fi + e) % 3]) if ei != 1 else (0,))):
+                if e > 0 and k:
+                    continue
+                so, sd = 2.0 ** e, 2.0 ** (e + k)
+                href, reps = make(sd, so)
+                href1, _ = make(2.0 ** k, 1.0)
+                for ri, rep in enumerate(reps):
+                    if not ctx.thorough and ri and (ri + n) % 2:
+                        continue
+                    n += 1
+                    t0 = SCALE_T0[n % len(SCALE_T0)] * (1 if k == 0 else 2.0 ** -(k // 2))
+                    gates = [{"k": "tevo", "t": t0 * 2.0 ** -e, "wrap": "some" if (ri == 0 and (ctx.thorough or k == 0)) else False}]
+                    inp = {"comp": True, "what": "generator-rep", "family": "scaled:%s:e=%d:k=%d" % (name, e, k), "rep": rep, "href": href,
+                           "ref": {"href": href1, "t": t0}, "gates": gates}
+                    if check_generator_rep(ctx, pid, inp) is not None:
+                        ctx.count("generator_scaled_long_time")
+                        ctx.nontriv(("generator-scaled", name, e, k, repr(rep)[:600]))
+                    if k == 0 and e < 0 and (ctx.thorough or ri == 0):
+                        # nearly the identity (t of order one), and block encodings of the tiny-norm operator
+                        g2 = [{"k": "tevo", "t": t0, "wrap": False, "near_identity": True}]
+                        if rep["r"] not in ("pstring",):
+                            g2 += [{"k": "benc", "method": ("Wx", "Wxi", "R")[n % 3], "wrap": "some"}]
+                        inp2 = dict(inp, gates=g2, ref={"href": href, "t": t0})
+                        if check_generator_rep(ctx, pid, inp2) is not None:
+                            ctx.count("generator_scaled_near_identity")
+
+
 def generator_checks(ctx, pid):
     """every family x every representation x (time evolution at the time grid | the three block encodings) x wrappers"""
     rng = ctx.rng
@@ -1662,6 +1890,7 @@ def generator_checks(ctx, pid):
             if cls is not None and (cls, gk) not in seen and len(seen) < 2:
                 seen.add((cls, gk))
                 ctx.sample({"generator_family": name, "class": cls, "rep": rep if len(repr(rep)) < 400 else "(large)", "gates": gk}, cap=9)
+    scaled_generator_checks(ctx, pid)
 
 
 # =============================================================================== array layout / dtype of user-supplied data
@@ -1908,6 +2137,144 @@ def check_fresh_arrays(ctx, pid, inp):
         ctx.fail("object-history:%s:oracle-raises" % kind, inp, "history evaluates", repr(e)[:300])
 
 
+# ---------------------------------------------------------------- arrays handed to constructors stay the caller's
+# A gate is defined by the VALUES it was constructed with.  Whether a constructor ends up holding the caller's buffer depends
+# on details of the numpy calls it makes (np.asarray / astype(copy=False) / ascontiguousarray / `x = x / n` skipped when the
+# input is already normalised ...), i.e. on dtype, layout and on the values themselves.  So every array parameter of every gate
+# class is handed over in every form and with values for which such calls return the same object; then the caller re-uses its
+# buffer (writes other valid values, or garbage) and the gate, the inverse() and copy() taken BEFORE the write, and the
+# wrappers around it must still report the matrices they reported before.
+ARRAY_FORMS = ["plain", "buffer-view", "fortran", "narrow", "real", "int"]
+
+
+def array_form(name):
+    def f(a, kind):
+        a = np.array(a)
+        if name == "buffer-view":                       # a contiguous part of a larger work buffer
+            big = np.zeros((a.shape[0] + 2,) + a.shape[1:], dtype=a.dtype)
+            big[1:1 + a.shape[0]] = a
+            return big[1:1 + a.shape[0]]
+        if name == "fortran":
+            return np.asfortranarray(a)
+        if name == "narrow":                            # single precision, only when it holds the values exactly
+            b = a.astype(np.complex64 if a.dtype.kind == "c" else np.float32)
+            return b if np.array_equal(b.astype(a.dtype), a) else a
+        if name == "real" and a.dtype.kind == "c" and np.all(a.imag == 0):
+            return np.array(a.real)
+        if name == "int" and np.all(a.imag == 0) and np.all(a.real == np.round(a.real)):
+            return np.array(a.real).astype(int)
+        return a
+    return f
+
+
+def benign_write(a, kind):
+    """the caller re-uses its buffer for OTHER valid values of the same kind (in place)"""
+    if kind == "prep":
+        a[:] = -a[::-1].copy()
+        if a.size > 1 and a[0] == -a[-1]:               # palindromic up to sign: move weight instead
+            a[0], a[-1] = a[-1], a[0]
+    elif kind == "Rot":
+        a[:] = np.array([a[2] + 1, a[0] - 2, a[1] + 3])
+    else:
+        a[:] = a @ a if not np.allclose(a @ a, a) else a[::-1].copy()
+
+
+def constructor_array_specs():
+    r = 1 / math.sqrt(2)
+    cx = lambda M: [[[float(np.real(c)), float(np.imag(c))] for c in row] for row in M]
+    mono = [[[0, 0], [0, 1], [0, 0], [0, 0]], [[1, 0], [0, 0], [0, 0], [0, 0]], [[0, 0], [0, 0], [0, 0], [-1, 0]], [[0, 0], [0, 0], [0, -1], [0, 0]]]
+    dense2 = cx(np.array([[r, r * 1j], [r * 1j, r]]))
+    leaves = []
+    for n, v, tr in ((1, [0.25, -0.75], False), (1, [0.5, 0.5], True), (1, [1.0, 0.0], False), (1, [0.0, -1.0], True),
+                     (2, [0.0, 0.5, -0.25, 0.25], True), (2, [0.125, 0.125, 0.25, 0.5], False), (2, [3.0, -1.0, 2.0, 2.0], False),
+                     (2, [0.1, 0.2, 0.3, 0.4], False), (3, [0.125] * 8, False)):
+        leaves.append({"k": "prep", "n": n, "vec": v, "tr": tr, "q": list(range(n))})
+    for P in ([0.3, -0.4, 1.2], [0.0, 0.0, 0.0], [1.0, 0.0, 0.0], [3.0, 4.0, 0.0]):
+        leaves.append(_leaf("Rot", [0], P))
+    for n, M in ((1, [[[0, 0], [1, 0]], [[1, 0], [0, 0]]]), (1, [[[1, 0], [0, 0]], [[0, 0], [0, 1]]]), (1, dense2), (2, mono)):
+        leaves.append({"k": "gen", "n": n, "mat": M, "q": list(range(n))})
+    out = []
+    for lf in leaves:
+        w = len(lf["q"])
+        out.append(lf)
+        out.append({"k": "ctrl", "pat": [1], "cq": [w], "g": lf})
+        other = {1: _leaf("X", [0]), 2: _leaf("ISwap", [0, 1])}.get(w)
+        if other is not None:
+            out.append({"k": "mux", "nc": 1, "cq": [w], "gs": [other, lf]})
+    return out
+
+
+def check_constructor_arrays(ctx, pid, inp):
+    from copy import copy
+    spec = inp["spec"]
+    tol = 1e-6 if inp["form"] == "narrow" else 1e-9     # single-precision parameters give single-precision matrices (not a defect)
+    try:
+        own = []
+        world = World(nqubits_of(spec))
+        g = build(spec, world, own, array_form(inp["form"]))
+        if len(own) != 1:
+            return None
+        arr, kind = own[0]
+        objs = [("gate", g), ("inverse() taken before the write", g.inverse()), ("copy() taken before the write", copy(g))]
+        before = [observe_gate(o, pid == "C03") for _, o in objs]
+    except Exception as e:
+        if inp["form"] == "plain":
+            ctx.fail("constructor-array:construction-raises:" + spec["k"], inp, "a gate", repr(e)[:200])
+        else:                                           # e.g. an un-normalised integer vector (in-place division): no gate, no claim
+            ctx.count("constructor_arrays:refused:" + inp["form"])
+        return None
+    try:
+        if inp["write"] == "benign":
+            benign_write(arr, kind)
+        elif not scribble_array(arr):
+            return None
+    except (ValueError, TypeError):
+        return None
+    ctx.count("constructor_arrays:%s:%s" % (kind, inp["form"]))
+    for (who, o), b in zip(objs, before):
+        where = dict(inp, object=who)
+        try:
+            U, Ui, herm, unit, nw = observe_gate(o, pid == "C03")
+        except Exception as e:
+            ctx.fail("constructor-array:%s:raises-after-the-caller-writes-into-its-array" % kind, where, "as_matrix / inverse / flags evaluate", repr(e)[:200])
+            continue
+        I = np.eye(U.shape[0])
+        if pid == "C01" and (U.shape != (2 ** nw,) * 2 or maxerr(U @ U.conj().T, I) > tol or not unit):
+            ctx.fail("constructor-array:%s:not-unitary-after-the-caller-writes-into-its-array" % kind, where, "unitary matrix", maxerr(U @ U.conj().T, I))
+        if pid == "C02" and maxerr(U, b[0]) > tol:
+            ctx.fail("constructor-array:%s:matrix-changes-when-the-caller-writes-into-the-array-it-passed" % kind, where,
+                     "the matrix of the gate of the values given at construction", maxerr(U, b[0]))
+        if pid == "C03" and (maxerr(Ui @ U, I) > tol or maxerr(U @ Ui, I) > tol):
+            ctx.fail("constructor-array:%s:inverse-does-not-invert-after-the-caller-writes-into-its-array" % kind, where, "inverse() * gate = 1", maxerr(Ui @ U, I))
+        if pid == "C16" and herm and maxerr(U, U.conj().T) > tol:
+            ctx.fail("constructor-array:%s:claims-hermitian-but-is-not-after-the-caller-writes-into-its-array" % kind, where, "U = U^dagger", maxerr(U, U.conj().T))
+    return kind
+
+
+def constructor_array_checks(ctx, pid):
+    ctx.rules.append("constructor arrays stay the caller's: PrepareGate vec (already 1-norm normalised with exactly representable entries, basis "
+                     "vectors, normalised up to rounding, un-normalised), RotationGate ntheta, GeneralGate mat - bare, controlled, multiplexed - "
+                     "handed over as fresh array / view into a larger work buffer / Fortran order / single precision / real / integer dtype; the "
+                     "caller then re-uses its buffer (other valid values; garbage); the gate, inverse() and copy() taken before the write must "
+                     "report the matrices they reported before (C02) and remain gates (C01, C03, C16)")
+    for spec in constructor_array_specs():
+        seen = set()
+        for form in ARRAY_FORMS:
+            probe = []
+            try:
+                build(spec, World(nqubits_of(spec)), probe, array_form(form))
+            except Exception:
+                pass
+            key = tuple((a.dtype.str, a.flags.c_contiguous, a.base is None) for a, _ in probe)
+            if key in seen:                             # this form coincides with an earlier one for these values
+                continue
+            seen.add(key)
+            for write in ("benign", "scribble"):
+                k = check_constructor_arrays(ctx, pid, {"comp": True, "what": "constructor-arrays", "spec": spec, "form": form, "write": write})
+                if k is not None:
+                    ctx.nontriv(("constructor-arrays", form, write, repr(spec)[:600]))
+
+
 def rebind(g, world, qs):
     """move a gate to the qubits qs (wire numbers of `world`) through its public binding API; returns False when the class
     offers no way to re-bind (two-qubit rotations, time evolution)"""
@@ -2112,6 +2479,7 @@ def object_history_checks(ctx, pid):
     for w, a, b in close_pairs():
         if a["k"] != "tevo":
             check_close_circuit(ctx, pid, {"comp": True, "what": "close-circuit", "gates": [a, b, a]})
+    constructor_array_checks(ctx, pid)
 
 
 # =============================================================================== C03, circuit level
@@ -2342,6 +2710,8 @@ def replay(ctx, pid, data):
         check_layout(ctx, pid, inp)
     elif inp["what"] == "fresh-arrays":
         check_fresh_arrays(ctx, pid, inp)
+    elif inp["what"] == "constructor-arrays":
+        check_constructor_arrays(ctx, pid, inp)
     elif inp["what"] == "rebind":
         check_rebind(ctx, pid, inp)
     elif inp["what"] == "close-circuit":
